@@ -12,8 +12,9 @@ package main
 // and of the REAL cli.readConfig in a child process, is the observation.
 //
 // input : kind=… root=cli|alt|<iface>|<name> path=… exp=reject|accept|value|cast|disc|none at=<Go field path> fk=<kind>
-//         raw=s(text) want=<value> env=m(…) props=m(file,m(…)) cfg=<value> sch=<schema the model runs on>
-// obs   : err=<classes> | late=<classes> | ok val=<decoded value> | ok disc=<bool,…> (cli)
+//         raw=s(text) want=<value> env=m(…) props=m(file,m(…)) cfg=<value>
+// obs   : (err=<classes> | late=<classes> | ok val=<decoded value> | ok disc=<bool,…> (cli)) sch=<schema>
+//         sch = the schema the model runs on, dumped by reflection from the real types of the tree under test
 
 import (
 	"fmt"
@@ -39,6 +40,8 @@ func setup() {
 	grpcimport.Import(fs)
 	loadRegistry()
 	setupEnv()
+	// constructors create files named by the configs (answ.log …): keep them in the scratch directory
+	_ = os.Chdir("/var/tmp/c17-props")
 }
 
 func class(input, obs string) string {
@@ -85,6 +88,9 @@ func main() {
 		Rule: "reflection walk over every config struct reachable from cli.CliConfig and from the config type of every plugin " +
 			"registered by core/import, phttp/import and grpc/import; per struct position one unknown and one misspelled key, per field " +
 			"one mistyped value, one out-of-range value per validate tag, null, a valid value, and env/property placeholders " +
-			"(set, unset, missing key, missing file) by field kind; a case is non-trivial when it carries a mutation (everything but kind=base)",
+			"(set, unset, missing key, missing file, negative / too wide / non-literal text) by field kind; the same walk over a synthetic struct with the kinds no " +
+			"component uses (narrow integers, float32, maps of structs, interface{}); documented constraints (answlog.filter); random combinations of 2-4 " +
+			"of these mutations (outcome compared with the model, no demand); cli.readConfig in a child process for discard_overflow and unknown keys; " +
+			"a case is non-trivial when it carries a mutation (everything but kind=base)",
 	})
 }
